@@ -182,6 +182,7 @@ class CacheIfHasAttributes(CacheMixin):
         if all(metadata.get("attributes", {}).get(a, False) for a in self.attributes):
             return self.cache.store_metadata(metadata)
         else:
+            self.cache.remove(metadata["query"])  # a refused record must not leave an older (progress) record behind
             return False
 
     def remove(self, key):
@@ -225,6 +226,7 @@ class CacheIfHasNotAttributes(CacheMixin):
 
     def store_metadata(self, metadata):
         if any(metadata.get("attributes", {}).get(a, False) for a in self.attributes):
+            self.cache.remove(metadata["query"])  # a refused record must not leave an older (progress) record behind
             return False
         else:
             return self.cache.store_metadata(metadata)
@@ -280,6 +282,7 @@ class CacheAttributeCondition(CacheMixin):
         else:
             if state_attribute_value != self.value:
                 return self.cache.store_metadata(metadata)
+        self.cache.remove(metadata["query"])  # a refused record must not leave an older (progress) record behind
         return False
 
     def remove(self, key):
